@@ -54,10 +54,10 @@ class Pchain(EventPattern):
         streams = [stm.stream(p) for p in reversed(self.patterns)]
         try:
             while True:
-                inevent = inevent.copy()
+                outevent = inevent.copy()
                 for stream in streams:
-                    inevent = stream.next(inevent)
-                inevent = yield inevent
+                    outevent = stream.next(outevent)
+                inevent = yield outevent
         except stm.StopStream:
             pass
         return inevent
